@@ -72,7 +72,7 @@ FIELDS = [
     {"name": "c", "kind": "bit", "w": 3, "signed": False, "rand": False, "init": 2},
 ]
 FAULTS = ["ctor_body", "ctor_if", "ctor_implies", "ctor_foreach", "inline_before", "inline_after", "inline_nested",
-          "pre_top", "post_top", "pre_sub", "post_sub", "unsat", "unsat_inline_foreach", "unsat_sfdebug"]
+          "pre_top", "post_top", "pre_sub", "post_sub", "unsat", "unsat_inline_foreach", "unsat_sfdebug", "unsat_sfdebug_plain"]
 
 
 @hyp.composite
@@ -246,6 +246,12 @@ class Session:
                     o.randomize()
                 finally:
                     object.__setattr__(tgt, attr, False)
+            elif kind == "unsat_sfdebug_plain":
+                # plain contradiction with solve_fail_debug=1: the diagnostics builder completes normally; the other,
+                # independently satisfiable rand sets of the object (dist field, list elements) take part in its run
+                o.set_randstate(flat.mk_randstate(f["seed"]))
+                render.call_inline(self.ns, o, [["expr", ["bin", "<", ["f", "a"], ["lit", 2]]], ["expr", ["bin", ">", ["f", "a"], ["lit", 5]]]],
+                                   "randomize_with", kw={"solve_fail_debug": 1})
             elif kind == "unsat_sfdebug":
                 # unsatisfiable call with solve_fail_debug=1 (the diagnostics builder runs a second solver instance)
                 o.set_randstate(flat.mk_randstate(f["seed"]))
